@@ -34,7 +34,8 @@ class Raised(Exception):
 
 SAFE_STR_METHODS = {'startswith', 'endswith', 'lower', 'upper', 'strip', 'lstrip', 'rstrip', 'isidentifier',
                     'isalpha', 'isalnum', 'isupper', 'islower', 'isdigit', 'split', 'rsplit', 'casefold',
-                    'removeprefix', 'removesuffix', 'capitalize', 'title', 'replace'}
+                    'removeprefix', 'removesuffix', 'capitalize', 'title', 'replace', 'join', 'splitlines', 'isdigit', 'isupper',
+                    'count', 'find', 'index', 'format', 'zfill', 'ljust', 'rjust', 'center', 'expandtabs', 'partition', 'rpartition'}
 
 
 class Obj:
